@@ -6,6 +6,7 @@ import (
 	"path/filepath"
 	"sort"
 	"strings"
+	"sync"
 	"testing"
 
 	"pgregory.net/rapid"
@@ -17,9 +18,11 @@ func TestMain(m *testing.M) { hx.Main(m) }
 
 var rec = hx.NewRecorder("C07",
 	"a case = an index set (0-4 indexes: single/composite, ASC/DESC, unique, on scalar/array/JSON/relation fields, declared in the SDL or "+
-		"built over existing data, dropped and rebuilt) + a history of creates/updates/deletes/merged remote commits applied to an indexed "+
-		"database and to a twin without indexes + 4-12 queries (filters over every operator, compound and/or/not, order, limit with order, "+
-		"showDeleted, docID, aggregates); a case is non-trivial when at least one query was served from an index "+
+		"built over existing data, dropped and rebuilt) + a history of creates/updates (full and partial documents)/deletes/merged remote "+
+		"commits applied to an indexed database and to a twin without indexes + 6-16 queries (filters over every operator, compound "+
+		"and/or/not, order, limit with order, showDeleted, docID, aggregates; a third are single-condition probes on an index's first field "+
+		"whose operand is a value some document holds); half of the cases avoid the triggers of the listed known findings by construction; "+
+		"a case is non-trivial when at least one query was served from an index "+
 		"(@explain(type: execute) indexFetches > 0) and returned neither nothing nor everything; distinct = distinct case",
 	"limit/offset are only generated together with an order (a bare limit legitimately depends on scan order); with an order and a limit only the sort-key sequence and the row count are compared",
 	"_like patterns are restricted to the shapes the matchers define (%x%, %x, x%, a%b, x)",
@@ -27,6 +30,11 @@ var rec = hx.NewRecorder("C07",
 	"a merge that fails on the twin without indexes ends the case (not an index matter)",
 	"GraphQL Int literals are 32-bit: filter constants are clamped, stored values span int64 (written through the collection API)",
 	"aggregates compared are _count and _sum/_min/_max over the small integer row id (exact in float64 whatever the fetch order)",
+)
+
+var (
+	extraMu         sync.Mutex
+	qTotal, qServed int
 )
 
 func labelsOf(c Case) []string {
@@ -96,6 +104,12 @@ func evalCase(t hx.TB, c Case) {
 	for i := 0; i < out.nNontrivial; i++ {
 		rec.Label("q:nontrivial")
 	}
+	extraMu.Lock()
+	qTotal += out.nQueries
+	qServed += out.nIndexServed
+	rec.Extra["queries_compared"] = qTotal
+	rec.Extra["queries_index_served"] = qServed
+	extraMu.Unlock()
 	rec.Check(t, c, f)
 }
 
